@@ -1,6 +1,6 @@
 (** The laws of the signature for the real part models (Model/FontReal.v). *)
 Require Import Norad.Model.GlifSpec Norad.Model.GlifDen Norad.Model.GlifEncode.
-Require Import Norad.Proofs.GlifParseP Norad.Proofs.GlifEncodeP Norad.Proofs.GlifRoundtripP.
+Require Import Norad.Proofs.GlifParseP Norad.Proofs.GlifEncodeP Norad.Proofs.GlifRoundtripP Norad.Proofs.GlifFullP.
 Require Import Norad.Model.FontRT Norad.Model.FontRealInfo Norad.Model.FontReal Norad.Proofs.FontRTP
                Norad.Proofs.FontRealInfoP.
 Open Scope N_scope.
@@ -11,7 +11,7 @@ Variables ff ff3 : fl -> str.
 Variable fi : Z -> str.
 Variable fh : N -> str.
 Variable K : codecs.
-Hypothesis L1 : L1_glif pf ff ff3 fh.
+Hypothesis L1 : L1_glif pf ff ff3 fi fh.
 
 Local Notation close3 := (fun x y : fl => pf (chan ff3 x) = Some y).
 
@@ -44,29 +44,30 @@ Proof.
   destruct H2 as [H2 _]. f_equal. apply color_fixed_eq; assumption.
 Qed.
 
-Lemma point_written_id : forall p, plib p = None -> point_written p = p.
-Proof. intros [x y t s n i l] H. simpl in H. subst. reflexivity. Qed.
-Lemma contour_written_id : forall c,
-  clib c = None /\ Forall (fun p => plib p = None) (cpoints c) -> contour_written c = c.
+Lemma point_rt_id : forall p, slib (plib p) = plib p -> point_rt p = p.
+Proof. intros [x y t s n i l] H. simpl in H. unfold point_rt. simpl. rewrite H. reflexivity. Qed.
+Lemma contour_rt_id : forall c,
+  slib (clib c) = clib c /\ Forall (fun p => slib (plib p) = plib p) (cpoints c) -> contour_rt c = c.
 Proof.
-  intros [ps i l] [H1 H2]. simpl in *. subst. unfold contour_written. simpl. f_equal.
-  induction H2 as [|p ps Hp F IH]; [reflexivity|]. simpl. rewrite point_written_id by assumption. f_equal. exact IH.
+  intros [ps i l] [H1 H2]. simpl in *. unfold contour_rt. simpl. rewrite H1. f_equal.
+  induction H2 as [|p ps Hp F IH]; [reflexivity|]. simpl. rewrite point_rt_id by assumption. f_equal. exact IH.
 Qed.
 Lemma map_id_in {A} (f : A -> A) l : (forall a, In a l -> f a = a) -> map f l = l.
 Proof. induction l; simpl; intros H; [reflexivity|]. rewrite H by auto. f_equal. auto. Qed.
 
-(** the real glif codec: exact round trip on [wf_glyph] *)
+(** the real glif codec: exact round trip on [wf_glyph] (from C02_roundtrip) *)
 Lemma glif_rt : forall o g, wf_glyph pf ff3 g ->
   exists c g', enc (P_glif_real pf ff ff3 fi fh K) o g = Some c /\
                dec (P_glif_real pf ff ff3 fi fh K) c = Some g' /\ g = g'.
 Proof.
-  intros o g (GR & GF & LF & NS & CW & CH & CI & CG & CA & CK).
-  destruct L1 as (H_ff & H_ff3 & H_fh).
-  destruct (roundtrip_libfree pf ff ff3 fi fh (fst o) close3 H_ff) with (g := g)
+  intros o g (GR & GF & LV & LP & NS & CW & CH & CI & CG & CA & CK & CC & CL).
+  destruct L1 as (H_ff & H_ff3 & H_fh & H_fi).
+  assert (F3 : c02_f3 (fst o) g = false).
+  { unfold c02_f3. rewrite LP, NS. simpl. rewrite andb_false_r. reflexivity. }
+  destruct (roundtrip_full pf ff ff3 fi fh (fst o) close3 H_ff) with (g := g)
     as (t & g' & E1 & E2 & R1 & R2 & R3 & R4 & R5 & R6 & R7 & R8 & R9 & R10 & R11); auto.
   { intros x Hx. destruct (H_ff3 x Hx) as [A [y [Hy Hu]]]. split; [exact A|]. exists y. auto. }
   simpl. rewrite E1. eexists. exists g'. split; [reflexivity|]. simpl. rewrite E2. split; [reflexivity|].
-  pose proof LF as (LB & LA & LG & LC & LK).
   destruct g as [n w h cps note img gs as_ ks cs lib]. destruct g' as [n' w' h' cps' note' img' gs' as' ks' cs' lib'].
   simpl in *. subst. f_equal.
   - symmetry. exact CW.
@@ -77,28 +78,27 @@ Proof.
     + symmetry. apply ocolor_fixed_eq; assumption.
     + symmetry. exact CI1.
   - symmetry. apply (Forall2_eq_in _ _ _ R7). intros a a' Ha (G1 & G2 & G3 & G4 & G5).
-    rewrite Forall_forall in CG, LG. specialize (CG a Ha). specialize (LG a Ha). simpl in *.
-    destruct a as [l nm c i lb]. destruct a' as [l' nm' c' i' lb']. simpl in *. subst. f_equal.
+    rewrite Forall_forall in CG. destruct (CG a Ha) as [C1 C2].
+    destruct a as [l nm c i lb]. destruct a' as [l' nm' c' i' lb']. simpl in *. subst. f_equal; [|exact C2].
     apply ocolor_fixed_eq; assumption.
   - symmetry. apply (Forall2_eq_in _ _ _ R8). intros a a' Ha (A1 & A2 & A3 & A4 & A5 & A6).
-    rewrite Forall_forall in CA, LA. specialize (CA a Ha). specialize (LA a Ha). simpl in *.
-    destruct a as [x y nm c i lb]. destruct a' as [x' y' nm' c' i' lb']. simpl in *. subst. f_equal.
+    rewrite Forall_forall in CA. destruct (CA a Ha) as [C1 C2].
+    destruct a as [x y nm c i lb]. destruct a' as [x' y' nm' c' i' lb']. simpl in *. subst. f_equal; [|exact C2].
     apply ocolor_fixed_eq; assumption.
-  - symmetry. apply map_id_in. intros c Hc. rewrite Forall_forall in CK, LK.
-    specialize (CK c Hc). specialize (LK c Hc). destruct c as [b tr i lb]. unfold comp_written. simpl in *.
-    subst. rewrite CK. reflexivity.
-  - symmetry. apply map_id_in. intros c Hc. rewrite Forall_forall in LC. apply contour_written_id. apply LC. exact Hc.
+  - symmetry. apply map_id_in. intros c Hc. rewrite Forall_forall in CK.
+    destruct (CK c Hc) as [C1 C2]. destruct c as [b tr i lb]. unfold comp_rt. simpl in *. rewrite C1, C2. reflexivity.
+  - symmetry. apply map_id_in. intros c Hc. rewrite Forall_forall in CC. apply contour_rt_id. apply CC. exact Hc.
+  - symmetry. exact CL.
 Qed.
 
+(** with an exact round trip the write options cannot matter: both outputs read back as [g] *)
 Lemma glif_opts : forall o1 o2 g c1 c2, wf_glyph pf ff3 g ->
   enc (P_glif_real pf ff ff3 fi fh K) o1 g = Some c1 -> enc (P_glif_real pf ff ff3 fi fh K) o2 g = Some c2 ->
   dec (P_glif_real pf ff ff3 fi fh K) c1 = dec (P_glif_real pf ff ff3 fi fh K) c2.
 Proof.
-  intros o1 o2 g c1 c2 (_ & _ & LF & _) H1 H2. simpl in H1, H2.
-  rewrite (encode_options_irrelevant ff fi ff3 fh (fst o1) (fst o2) g) in H1.
-  - rewrite H1 in H2. inversion H2. reflexivity.
-  - intros lib Hl. unfold written_lib in Hl. rewrite (dump_lib_free g LF) in Hl. destruct LF as [LB _].
-    rewrite LB in Hl. simpl in Hl. inversion Hl. reflexivity.
+  intros o1 o2 g c1 c2 Hw H1 H2.
+  destruct (glif_rt o1 g Hw) as (d1 & g1 & A1 & B1 & E1). destruct (glif_rt o2 g Hw) as (d2 & g2 & A2 & B2 & E2).
+  rewrite H1 in A1. rewrite H2 in A2. inversion A1; inversion A2; subst. congruence.
 Qed.
 
 Lemma glif_real_ok : part_ok (P_glif_real pf ff ff3 fi fh K).
@@ -253,7 +253,8 @@ End RealP.
 
 Lemma real_sample_wf : forall pf ff3, wf_glyph pf ff3 g_real_sample.
 Proof.
-  intros pf ff3. unfold wf_glyph. split; [|split; [|split; [|split; [reflexivity|]]]].
+  intros pf ff3. unfold wf_glyph.
+  split; [|split; [|split; [vm_compute; reflexivity|split; [vm_compute; reflexivity|split; [reflexivity|]]]]].
   - unfold glyph_rules, g_real_sample; cbn [gname gcps gimage gguides ganchors gcomps gcontours].
     split; [reflexivity|]. split; [repeat constructor; cbn; intuition discriminate|].
     split; [repeat constructor|]. split; [exact I|]. split; [constructor|].
@@ -265,12 +266,8 @@ Proof.
       split; [repeat constructor; cbn; congruence|]. split; [reflexivity|congruence].
     + apply Norad.Proofs.GlifSpecP.nodupb_spec. vm_compute. reflexivity.
   - unfold glyph_finite, g_real_sample, contour_finite, transform_finite; cbn. repeat split; repeat constructor.
-  - unfold lib_free, g_real_sample; cbn. repeat split; repeat constructor.
-  - unfold glyph_canon, g_real_sample; cbn. repeat split; repeat constructor.
+  - unfold glyph_canon, g_real_sample; cbn. repeat split; repeat constructor; vm_compute; reflexivity.
 Qed.
-
-(** every lawful signature gives the base laws (so the hypothesis [base_laws] is satisfiable whenever
-    [sig_ok] is) *)
 
 (** ** the remaining hypotheses are jointly satisfiable: codecs that keep the values as they are *)
 Inductive kcontent : Type :=
